@@ -400,6 +400,23 @@ func c14(run *ev.Run, tier string) {
 				"got": []string{info.Version, info.Prerelease, info.VersionMetadata}, "want": []string{wv, wp, wm}})
 		}
 	}
+	// a version left unset gets the default version string, which is then treated
+	// like a configured one: split under the default schema (explicit components
+	// win), verbatim under schema none
+	for _, c := range []struct{ schema, pre, meta, wv, wp, wm string }{
+		{"", "", "", "0.0.0", "rc0", ""}, {"semver", "", "", "0.0.0", "rc0", ""},
+		{"", "beta2", "", "0.0.0", "beta2", ""}, {"", "", "git.1", "0.0.0", "rc0", "git.1"}, {"", "x-y", "m", "0.0.0", "x-y", "m"},
+		{"none", "", "", "v0.0.0-rc0", "", ""}, {"none", "beta2", "", "v0.0.0-rc0", "beta2", ""},
+	} {
+		info := &nfpm.Info{Name: "x", VersionSchema: c.schema, Prerelease: c.pre, VersionMetadata: c.meta}
+		nfpm.WithDefaults(info)
+		parsed++
+		run.Case(fmt.Sprintf("unset-version|%s|%s|%s", c.schema, c.pre, c.meta), true)
+		if info.Version != c.wv || info.Prerelease != c.wp || info.VersionMetadata != c.wm {
+			run.Violate("C14/default-version-not-treated-like-a-configured-one", map[string]any{"schema": c.schema, "explicit_prerelease": c.pre, "explicit_metadata": c.meta,
+				"got": []string{info.Version, info.Prerelease, info.VersionMetadata}, "want": []string{c.wv, c.wp, c.wm}})
+		}
+	}
 	// the same split applies when the version reaches the configuration through
 	// the environment (version: ${VERSION}), the usual way in CI
 	var viaEnv int64
